@@ -122,6 +122,9 @@ func faultParams(tier string) []Param {
 		add("bh", vnet.S2C, 0, vnet.MidPayload, "early", "plain", "none", 0)
 		add("bh", vnet.C2S, 0, vnet.After, "window", "plain", "poll", 0)
 		add("bh", vnet.S2C, 0, vnet.Before, "window", "plain", "poll", 0)
+		// a client with pings switched off but a timeout: only the read deadline can notice silence
+		add("bh", vnet.C2S, 0, vnet.After, "window", "plain", "noping", 0)
+		add("bh", vnet.S2C, 0, vnet.MidPayload, "early", "plain", "noping", 0)
 		add("fin", vnet.S2C, 0, vnet.MidPayload, "window", "retry", "none", 1)
 		add("rst", vnet.C2S, 0, vnet.After, "window", "notify", "none", 1)
 		add("fin", vnet.S2C, 0, vnet.Before, "late", "plain", "dialfail", 1)
@@ -152,6 +155,12 @@ func faultParams(tier string) []Param {
 					}
 				}
 			}
+		}
+	}
+	for _, dir := range []vnet.Dir{vnet.C2S, vnet.S2C} {
+		for _, w := range wheres {
+			add("bh", dir, 0, w, "window", "plain", "noping", 0)
+			add("bh", dir, 0, w, "window", "plain", "poll", 0)
 		}
 	}
 	for _, ak := range []string{"retry", "notify"} {
@@ -200,7 +209,9 @@ func faultBody(s *vsched.Sched, p Param) {
 	w.RPC.Register("T", srv)
 	w.Serve()
 	opts := []jsonrpc.Option{jsonrpc.WithReconnectBackoff(10*time.Millisecond, 40*time.Millisecond)}
-	if kind == vnet.Blackhole {
+	if kind == vnet.Blackhole && p.Str("second") == "noping" {
+		opts = append(opts, jsonrpc.WithPingInterval(0), jsonrpc.WithTimeout(3*time.Second))
+	} else if kind == vnet.Blackhole {
 		// only the read deadline can notice silence
 		opts = append(opts, jsonrpc.WithPingInterval(time.Second), jsonrpc.WithTimeout(3*time.Second))
 	} else {
